@@ -238,25 +238,25 @@ def model_build(root, engine):
 
 
 def harness_prepare(root):
+    """Write build/harness.mod + build/harness.sum (the tracked harness/go.mod with its replace pointed at REPO);
+    the tracked go.mod / go.sum are never rewritten."""
     hs = os.path.join(root, "harness")
+    os.makedirs(os.path.join(root, "build"), exist_ok=True)
     sums = set()
-    for p in [os.path.join(REPO, "go.sum"), os.path.join(REPO, "cmd", "atlas", "go.sum")]:
+    for p in [os.path.join(REPO, "go.sum"), os.path.join(REPO, "cmd", "atlas", "go.sum"), os.path.join(hs, "go.sum.extra")]:
         if os.path.exists(p):
             sums.update(l for l in open(p).read().splitlines() if l.strip())
-    extra = os.path.join(hs, "go.sum.extra")
-    if os.path.exists(extra):
-        sums.update(l for l in open(extra).read().splitlines() if l.strip())
-    write_if_changed(os.path.join(hs, "go.sum"), "\n".join(sorted(sums)) + "\n")
-    gm = os.path.join(hs, "go.mod")
-    mod = open(gm).read()
+    write_if_changed(os.path.join(root, "build", "harness.sum"), "\n".join(sorted(sums)) + "\n")
+    mod = open(os.path.join(hs, "go.mod")).read()
     mod2 = re.sub(r"replace ariga\.io/atlas => \S+", "replace ariga.io/atlas => " + REPO, mod)
-    write_if_changed(gm, mod2)
+    write_if_changed(os.path.join(root, "build", "harness.mod"), mod2)
+    return os.path.join(root, "build", "harness.mod")
 
 
 def harness_build(root, engine):
-    harness_prepare(root)
+    modfile = harness_prepare(root)
     binp = os.path.join(root, "build", "h_" + engine)
-    rc, out, _ = run(["go", "build", "-tags", "verif", "-o", binp, "./cmd/" + engine],
+    rc, out, _ = run(["go", "build", "-modfile=" + modfile, "-tags", "verif", "-o", binp, "./cmd/" + engine],
                      cwd=os.path.join(root, "harness"), env=goenv(), timeout=1800)
     return rc == 0, out
 
